@@ -110,7 +110,12 @@ fn validate_batch(b: &RecordBatch) -> Result<(), String> {
         if c.len() != b.num_rows() {
             return Err(format!("col{}:len", i));
         }
-        c.to_data().validate_full().map_err(|e| format!("col{}:{}", i, slug(&e.to_string())))?;
+        c.to_data().validate_full().map_err(|e| {
+            if std::env::var("VERIF_LOUD").is_ok() {
+                eprintln!("validate_full: column {} ({:?}): {}", i, c.data_type(), e);
+            }
+            format!("col{}:{}", i, slug(&e.to_string()))
+        })?;
     }
     Ok(())
 }
@@ -1164,7 +1169,7 @@ fn main() {
                 run_and_record(&mut w, &mut sink, line, &tags, n);
             }
         }
-        let n = n_cases(&args, 4000, 200000);
+        let n = n_cases(&args, 4000, 60000);
         for _ in 0..n {
             let (line, tags, len) = gen_unit(&mut rng);
             run_and_record(&mut w, &mut sink, line, &tags, len);
